@@ -1,4 +1,5 @@
 import GapicModel.Model.Determinism
+import GapicModel.Lemmas.C10Dicts
 import GapicModel.Pinned.Funcs
 /-
 C10 — generation is a pure, deterministic function of the request (DESIGN §7.10).
@@ -322,6 +323,28 @@ theorem subpackage_names_perm_invariant (view : List Str) (subs subs' : List (Li
     subpackageOrder (dedup (subpackageNames view subs)) = subpackageOrder (dedup (subpackageNames view subs')) :=
   sorted_perm_invariant _ _ (isSetOf_perm_of_perm (dedup_isSetOf _) (dedup_isSetOf _) (h.filterMap _))
 
+/-- **sub-packages of a sub-package** (`fix: sub-packages of a sub-package are named by their own level`):
+every key of `API.subpackages` of the view `view` is the component at the view's OWN level of some proto
+below the view — so `view + (key,)` is again a prefix of that proto's sub-package path, and the `%sub` walk
+can descend into it. -/
+theorem subpackage_names_own_level (view : List Str) (subs : List (List Str)) (n : Str)
+    (h : n ∈ subpackageNames view subs) : ∃ sp ∈ subs, sp.take (view.length + 1) = view ++ [n] := by
+  simp only [subpackageNames, mem_filterMap] at h
+  obtain ⟨sp, hsp, hn⟩ := h
+  split at hn
+  · rename_i hc
+    refine ⟨sp, hsp, ?_⟩
+    rw [take_succ, hc.2, hn]
+    rfl
+  · cases hn
+
+/-- regression for that fix: below `alpha` the nested package `alpha.deep` is listed as `deep` (it was `alpha`) -/
+theorem subpackage_names_level_regression :
+    subpackageNames ["alpha".toList] [["alpha".toList, "deep".toList], ["beta".toList], ["alpha".toList]] = ["deep".toList] := by
+  decide
+
+example : "deep".toList ∈ subpackageNames ["alpha".toList] [["alpha".toList, "deep".toList], ["beta".toList]] := by decide
+
 /-! ## S5: ordered inputs — OAuth scopes keep their declaration order -/
 
 section Aux
@@ -572,6 +595,282 @@ theorem resource_helpers_needs_distinct_types (a b : Resource) (hab : a ≠ b) (
 
 example : (⟨['x','/','T'], ['a']⟩ : Resource) ≠ ⟨['x','/','T'], ['b']⟩ ∧
     (⟨['x','/','T'], ['a']⟩ : Resource).type = (⟨['x','/','T'], ['b']⟩ : Resource).type := by decide
+
+/-! ## S5, round 2: the dictionaries the templates iterate UNSORTED
+
+`api.mixin_api_methods.keys()`, `api.mixin_api_signatures.items()`, `api.mixin_http_options[...]`,
+`api.http_options.items()` and `api.all_method_settings` reach `{% for %}` loops without a sort, so the
+order of the emitted definitions IS the insertion order of these dicts.  The theorems give that order in
+closed form as a function of the ORDER of the service yaml's lists (rules, method settings) — and of
+nothing else: not of the order of the descriptor tables, not of `apis`, not of the rules' contents. -/
+
+section Dicts
+open Lemmas.C10Dicts
+
+/-- **dict comprehension / `d[k] = v` loop**: the keys are the first occurrences, in order. -/
+theorem dict_key_order {V : Type} (ps : List (Str × V)) : (OMap.ofPairs ps).keys = dedup (ps.map (·.1)) :=
+  keys_ofPairs ps
+
+/-- **`a.update(b)` / `{**a, **b}`**: `a`'s keys stay in place; `b`'s new keys follow at their first occurrence. -/
+theorem dict_update_key_order {V : Type} (a : OMap V) (b : List (Str × V)) :
+    (a.update b).keys = a.keys ++ (dedup (b.map (·.1))).filter (fun k => decide (k ∉ a.keys)) :=
+  keys_update a b
+
+/-- … the VALUE under a key is the last one written (position and value come from different items). -/
+theorem dict_last_writer_wins {V : Type} (ps : List (Str × V)) (k : Str) :
+    (OMap.ofPairs ps).get? k = (ps.reverse.find? (fun p => p.1 = k)).map (·.2) :=
+  get_ofPairs ps k
+
+/-- the key order of a dict does not look at the values -/
+theorem dict_key_order_ignores_values {V W : Type} (ps : List (Str × V)) (qs : List (Str × W))
+    (h : ps.map (·.1) = qs.map (·.1)) : (OMap.ofPairs ps).keys = (OMap.ofPairs qs).keys := by
+  rw [keys_ofPairs, keys_ofPairs, h]
+
+example : ([("b".toList, 1), ("a".toList, 2)] : List (Str × Nat)).map (·.1) = ([("b".toList, true), ("a".toList, false)] : List (Str × Bool)).map (·.1) := by
+  decide
+
+example : (OMap.ofPairs [("b".toList, 1), ("a".toList, 2), ("b".toList, 3)]).keys = ["b".toList, "a".toList] ∧
+    (OMap.ofPairs [("b".toList, 1), ("a".toList, 2), ("b".toList, 3)]).get? "b".toList = some 3 := by decide
+
+/-- **`_get_methods_from_service`**: the keys are the method names selected by the yaml's `http.rules`,
+in the order of the rules (first occurrence of a repeated selector). -/
+theorem methods_from_service_yaml_order (t : MethodTable) (rules : List YamlRule) :
+    (methodsFromService t rules).keys = dedup (selNames t (rules.map (·.selector))) := by
+  rw [methodsFromService, keys_ofPairs, selNames, map_filterMap, filterMap_map]
+  congr 2
+  funext r
+  simp only [Function.comp, Option.map_map]
+  cases t.name? r.selector <;> rfl
+
+/-- … the rule stored under a name is the LAST rule with that selector -/
+theorem methods_from_service_last_rule_wins (t : MethodTable) (rules : List YamlRule) (n : Str) :
+    (methodsFromService t rules).get? n =
+      ((rules.filterMap fun r => (t.name? r.selector).map fun m => (m, r)).reverse.find? (fun p => p.1 = n)).map (·.2) :=
+  get_ofPairs _ n
+
+/-- **the descriptor table is only looked up**: the first loop of `_get_methods_from_service` may fill
+`methods` in any order (it walks `services_by_name`, a mapping of the descriptor pool) — the result is the same. -/
+theorem methods_from_service_table_order_free (t t' : MethodTable) (h : t.Perm t') (hnd : (t.map (·.1)).Nodup)
+    (rules : List YamlRule) : methodsFromService t rules = methodsFromService t' rules := by
+  simp only [methodsFromService, name?_perm t t' h hnd]
+
+example : ([("p.S.A".toList, "A".toList), ("p.S.B".toList, "B".toList)] : MethodTable).Perm
+      [("p.S.B".toList, "B".toList), ("p.S.A".toList, "A".toList)] ∧
+    (([("p.S.A".toList, "A".toList), ("p.S.B".toList, "B".toList)] : MethodTable).map (·.1)).Nodup :=
+  ⟨Perm.swap _ _ _, by decide⟩
+
+section Aux
+/-- one of the three conditional merges of `mixin_api_methods` -/
+theorem keys_merge_step (c : Bool) (t : MethodTable) (rules : List YamlRule) (a : OMap YamlRule) (x : List Str)
+    (ha : a.keys = dedup x) :
+    (if c then a.update (methodsFromService t rules) else a).keys =
+      dedup (x ++ if c then selNames t (rules.map (·.selector)) else []) := by
+  cases c with
+  | false => simpa using ha
+  | true =>
+    have hn : a.keys.Nodup := ha ▸ Lemmas.C10Dicts.nodup_dedup x
+    simp only [if_true]
+    rw [keys_update_nodup _ _ hn]
+    have e : (methodsFromService t rules).map (·.1) = (methodsFromService t rules).keys := rfl
+    rw [e, methods_from_service_yaml_order, ha, dedup_append_dedup_left, dedup_append_dedup_right]
+
+theorem any_perm {α : Type} (p : α → Bool) (xs ys : List α) (h : xs.Perm ys) : xs.any p = ys.any p := by
+  rw [Bool.eq_iff_iff, any_eq_true, any_eq_true]
+  exact ⟨fun ⟨a, ha, hp⟩ => ⟨a, h.mem_iff.mp ha, hp⟩, fun ⟨a, ha, hp⟩ => ⟨a, h.mem_iff.mpr ha, hp⟩⟩
+
+theorem iamOverrides_congr (T T' : MixinTables) (hi : T.iam.Perm T'.iam) (hin : (T.iam.map (·.1)).Nodup)
+    (apis apis' : List Str) (ha : apis.Perm apis') (sm sm' : List (List Str)) (hs : sm.Perm sm')
+    (rules rules' : List YamlRule) (hr : rules.map (·.selector) = rules'.map (·.selector)) :
+    iamOverrides T apis sm rules = iamOverrides T' apis' sm' rules' := by
+  have hf : T.iam.name? = T'.iam.name? := funext (name?_perm _ _ hi hin)
+  simp only [iamOverrides, hasApi, any_perm _ _ _ ha, any_perm _ _ _ hs, methods_from_service_yaml_order,
+    selNames, hr, hf]
+end Aux
+
+/-- **`API.mixin_api_methods`** — the order in which `transports/base.py` wraps the mixin methods:
+for the mixins that are switched on, in the FIXED order Locations, IAM, Operations, the methods the
+yaml's rules select, in yaml order. -/
+theorem mixin_api_methods_yaml_order (T : MixinTables) (apis : List Str) (sm : List (List Str)) (rules : List YamlRule) :
+    (mixinApiMethods T apis sm rules).keys =
+      dedup ((if hasApi apis locApi then selNames T.loc (rules.map (·.selector)) else []) ++
+             (if !iamOverrides T apis sm rules && hasApi apis iamApi then selNames T.iam (rules.map (·.selector)) else []) ++
+             (if hasApi apis opsApi then selNames T.ops (rules.map (·.selector)) else [])) := by
+  unfold mixinApiMethods
+  have h1 := keys_merge_step (hasApi apis locApi) T.loc rules [] [] rfl
+  have h2 := keys_merge_step (!iamOverrides T apis sm rules && hasApi apis iamApi) T.iam rules _ _ h1
+  have h3 := keys_merge_step (hasApi apis opsApi) T.ops rules _ _ h2
+  simpa [append_assoc] using h3
+
+theorem mixin_api_methods_keys_nodup (T : MixinTables) (apis : List Str) (sm : List (List Str)) (rules : List YamlRule) :
+    (mixinApiMethods T apis sm rules).keys.Nodup := by
+  rw [mixin_api_methods_yaml_order]; exact Lemmas.C10Dicts.nodup_dedup _
+
+/-- **the order is a function of the yaml order only**: permuting the descriptor tables, the yaml's
+`apis` list or the API's services, and changing anything in the rules except the SEQUENCE of their
+selectors, leaves the order of the mixin methods unchanged. -/
+theorem mixin_api_methods_order_function_of_yaml_order (T T' : MixinTables)
+    (hl : T.loc.Perm T'.loc) (hi : T.iam.Perm T'.iam) (ho : T.ops.Perm T'.ops)
+    (hln : (T.loc.map (·.1)).Nodup) (hin : (T.iam.map (·.1)).Nodup) (hon : (T.ops.map (·.1)).Nodup)
+    (apis apis' : List Str) (ha : apis.Perm apis') (sm sm' : List (List Str)) (hs : sm.Perm sm')
+    (rules rules' : List YamlRule) (hr : rules.map (·.selector) = rules'.map (·.selector)) :
+    (mixinApiMethods T apis sm rules).keys = (mixinApiMethods T' apis' sm' rules').keys := by
+  rw [mixin_api_methods_yaml_order, mixin_api_methods_yaml_order,
+    iamOverrides_congr T T' hi hin apis apis' ha sm sm' hs rules rules' hr]
+  have hfl : T.loc.name? = T'.loc.name? := funext (name?_perm _ _ hl hln)
+  have hfi : T.iam.name? = T'.iam.name? := funext (name?_perm _ _ hi hin)
+  have hfo : T.ops.name? = T'.ops.name? := funext (name?_perm _ _ ho hon)
+  simp only [hasApi, any_perm _ _ _ ha, selNames, hr, hfl, hfi, hfo]
+  rfl
+
+def exTables : MixinTables :=
+  ⟨[("google.cloud.location.Locations.GetLocation".toList, "GetLocation".toList)],
+   [("google.iam.v1.IAMPolicy.GetIamPolicy".toList, "GetIamPolicy".toList)],
+   [("google.longrunning.Operations.GetOperation".toList, "GetOperation".toList),
+    ("google.longrunning.Operations.ListOperations".toList, "ListOperations".toList)]⟩
+def exRule (sel verb : String) : YamlRule := ⟨sel.toList, ⟨verb.toList, "/v1/{name=x/*}".toList, []⟩, []⟩
+def exRules : List YamlRule :=
+  [exRule "google.longrunning.Operations.ListOperations" "get", exRule "google.cloud.location.Locations.GetLocation" "get",
+   exRule "acme.lib.v1.Library.GetBook" "get", exRule "google.longrunning.Operations.GetOperation" "get",
+   exRule "google.longrunning.Operations.ListOperations" "post"]
+
+/-- the worked example: Locations first although its rule comes second; `ListOperations` keeps the place of its first rule -/
+example : (mixinApiMethods exTables [opsApi, locApi] [["GetBook".toList]] exRules).keys =
+    ["GetLocation".toList, "ListOperations".toList, "GetOperation".toList] := by decide
+
+example : exTables.ops.Perm exTables.ops.reverse ∧ (exTables.ops.map (·.1)).Nodup ∧
+    ([opsApi, locApi] : List Str).Perm [locApi, opsApi] ∧
+    exRules.map (·.selector) = (exRules.map fun r => { r with additional := [r.rule] }).map (·.selector) :=
+  ⟨(reverse_perm _).symm, by decide, Perm.swap _ _ _, by decide⟩
+
+/-- **`mixin_api_signatures` and `mixin_http_options`** are re-keyed copies: same keys, same order
+(`_rest_mixins_base.py.j2`, `rest.py.j2`, `rest_asyncio.py.j2` and the emitted tests loop over the former
+and index the latter). -/
+theorem mixin_signatures_same_order (m : OMap YamlRule) (h : m.keys.Nodup) :
+    mixinApiSignatures m = m.map fun p => (p.1, p.1) := by
+  rw [mixinApiSignatures, ofPairs_of_nodup]
+  rw [map_map]; exact h
+
+theorem mixin_http_options_same_order (m : OMap YamlRule) (h : m.keys.Nodup) :
+    mixinHttpOptions m = m.map fun p => (p.1, p.2.options) := by
+  rw [mixinHttpOptions, ofPairs_of_nodup]
+  rw [map_map]; exact h
+
+theorem mixin_dicts_share_key_order (T : MixinTables) (apis : List Str) (sm : List (List Str)) (rules : List YamlRule) :
+    (mixinApiSignatures (mixinApiMethods T apis sm rules)).keys = (mixinApiMethods T apis sm rules).keys ∧
+    (mixinHttpOptions (mixinApiMethods T apis sm rules)).keys = (mixinApiMethods T apis sm rules).keys := by
+  have h := mixin_api_methods_keys_nodup T apis sm rules
+  rw [mixin_signatures_same_order _ h, mixin_http_options_same_order _ h]
+  simp [OMap.keys, Function.comp]
+
+example : (mixinApiMethods exTables [opsApi, locApi] [["GetBook".toList]] exRules).keys.Nodup := by decide
+
+/-- **`API.http_options`** (the `http_options` dict literal of `operations_client` in `rest.py`): one
+entry per DISTINCT selector in yaml order, carrying the bindings of the last rule with that selector. -/
+theorem http_options_yaml_order (rules : List YamlRule) :
+    (httpOptions rules).keys = dedup (rules.map (·.selector)) := by
+  rw [httpOptions, keys_ofPairs, map_map]; rfl
+
+theorem http_options_last_rule_wins (rules : List YamlRule) (sel : Str) :
+    (httpOptions rules).get? sel = (rules.reverse.find? (fun r => r.selector = sel)).map (·.options) := by
+  rw [httpOptions, get_ofPairs, ← map_reverse, find?_map, Option.map_map]
+  rfl
+
+/-- **`API.all_method_settings`**: whenever it does not raise, the dict IS the yaml list (same entries,
+same order) — `enforce_valid_method_settings` has already rejected repeated selectors. -/
+theorem all_method_settings_is_yaml_list (valid : MethodSetting → Bool) (ms : List MethodSetting) (d : OMap MethodSetting)
+    (h : allMethodSettings valid ms = some d) : d = ms.map fun m => (m.selector, m) := by
+  unfold allMethodSettings at h
+  split at h
+  · rename_i hc
+    simp only [Bool.and_eq_true, decide_eq_true_eq] at hc
+    injection h with h
+    rw [← h, ofPairs_of_nodup]
+    rw [map_map]; exact hc.1
+  · cases h
+
+theorem all_method_settings_raises_iff (valid : MethodSetting → Bool) (ms : List MethodSetting) :
+    allMethodSettings valid ms = none ↔ ¬ (ms.map (·.selector)).Nodup ∨ ∃ m ∈ ms, valid m = false := by
+  unfold allMethodSettings
+  split
+  · rename_i hc
+    simp only [Bool.and_eq_true, decide_eq_true_eq, all_eq_true] at hc
+    constructor
+    · intro h; cases h
+    · rintro (h | ⟨m, hm, hv⟩)
+      · exact absurd hc.1 h
+      · rw [hc.2 m hm] at hv; cases hv
+  · rename_i hc
+    simp only [Bool.and_eq_true, decide_eq_true_eq, all_eq_true, not_and] at hc
+    constructor
+    · intro _
+      by_cases hn : (ms.map (·.selector)).Nodup
+      · right
+        apply Classical.byContradiction
+        intro hne
+        apply hc hn
+        intro x hx
+        cases hvx : valid x with
+        | true => rfl
+        | false => exact absurd ⟨x, hx, hvx⟩ hne
+      · exact Or.inl hn
+    · intro _; rfl
+
+example : allMethodSettings (fun _ => true) [⟨"a.S.M".toList, false, ["request_id".toList]⟩, ⟨"a.S.N".toList, true, []⟩] =
+    some [("a.S.M".toList, ⟨"a.S.M".toList, false, ["request_id".toList]⟩), ("a.S.N".toList, ⟨"a.S.N".toList, true, []⟩)] := by decide
+
+/-- **`Generator.get_response`**: the files of the response are listed in the order in which their NAMES
+are first produced — samples, then template after template; a name produced twice keeps its first place. -/
+theorem response_file_order {C : Type} (sample : List (Str × C)) (perTemplate : List (List (Str × C))) :
+    (responseFiles sample perTemplate).keys = dedup (sample.map (·.1) ++ perTemplate.flatMap (·.map (·.1))) := by
+  unfold responseFiles
+  have gen : ∀ (ts : List (List (Str × C))) (a : OMap C) (x : List Str), a.keys = dedup x →
+      (ts.foldl OMap.update a).keys = dedup (x ++ ts.flatMap (·.map (·.1))) := by
+    intro ts
+    induction ts with
+    | nil => intro a x h; simpa using h
+    | cons t ts ih =>
+      intro a x h
+      have hn : a.keys.Nodup := h ▸ Lemmas.C10Dicts.nodup_dedup x
+      rw [foldl_cons, ih (a.update t) (x ++ t.map (·.1))]
+      · simp [append_assoc]
+      · rw [keys_update_nodup _ _ hn, h, dedup_append_dedup_left]
+  exact gen perTemplate _ _ (keys_ofPairs sample)
+
+example : (responseFiles [("samples/a.py".toList, 0)] [[("x/__init__.py".toList, 1), ("x/a.py".toList, 2)],
+    [("x/__init__.py".toList, 3)]]).keys = ["samples/a.py".toList, "x/__init__.py".toList, "x/a.py".toList] := by decide
+
+/-- **`API.services` / `API.messages` / `API.enums`** (ChainMaps over the protos' dicts, iterated by
+`for service in api.services.values()`): the keys of the LAST proto first, each key at its first occurrence. -/
+theorem chain_map_key_order (maps : List (List Str)) : chainMapKeys maps = dedup (maps.reverse.flatten) := by
+  rw [chainMapKeys, response_file_order]
+  simp only [map_nil, nil_append, flatMap_map, map_map, Function.comp_def, map_id', flatten_eq_flatMap]
+  rfl
+
+example : chainMapKeys [[], ["a.S".toList, "a.T".toList], ["a.sub.U".toList]] = ["a.sub.U".toList, "a.S".toList, "a.T".toList] := by
+  decide
+
+/-- **`d|dictsort`**: when the keys are distinct up to case the result does not depend on the insertion
+order of the dict (otherwise the stable sort keeps the insertion order among the case-equal keys, and
+that order is the declaration order — an ordered input). -/
+theorem dictsort_insertion_order_free {V : Type} (d d' : OMap V) (h : d.Perm d')
+    (hinj : ∀ a ∈ d, ∀ b ∈ d, lower a.1 = lower b.1 → a = b) : dictsort d = dictsort d' := by
+  unfold dictsort jinjaSortAttr
+  exact sort_by_key_perm_invariant (fun a => lower a.1) d d' h hinj
+
+example : ([("beta".toList, 1), ("Alpha".toList, 2)] : OMap Nat).Perm [("Alpha".toList, 2), ("beta".toList, 1)] ∧
+    (∀ a ∈ ([("beta".toList, 1), ("Alpha".toList, 2)] : OMap Nat), ∀ b ∈ ([("beta".toList, 1), ("Alpha".toList, 2)] : OMap Nat),
+      lower a.1 = lower b.1 → a = b) := ⟨Perm.swap _ _ _, by decide⟩
+
+/-- **the seed6 change is order-dependent**: collecting the mixin methods by walking the SET
+`methods.keys() & rules.keys()` yields a key order that follows the set's iteration order. -/
+theorem mixin_methods_via_set_counterexample :
+    ∃ s s' : List Str, s.Perm s' ∧
+      (methodsFromServiceViaSet exTables.ops exRules s).keys ≠ (methodsFromServiceViaSet exTables.ops exRules s').keys :=
+  ⟨["google.longrunning.Operations.GetOperation".toList, "google.longrunning.Operations.ListOperations".toList],
+   ["google.longrunning.Operations.ListOperations".toList, "google.longrunning.Operations.GetOperation".toList],
+   Perm.swap _ _ _, by decide⟩
+
+end Dicts
 
 /-! ## Link to the function translated from /repo's source (harness/pyfun2lean.py) -/
 
